@@ -269,6 +269,30 @@ func Harness_C13_RecordDefault(format int) {
 	verif.Cover("decoded")
 }
 
+// Harness_C13_NoSharingNested: default instances do not share the defaults of
+// a nested record reached through a required record-typed field: mutating one
+// instance leaves every other instance, and instances built later, with the
+// schema literal.
+func Harness_C13_NoSharingNested() {
+	a, b := vt.NewWrap3WithDefaultValues(), vt.NewWrap3WithDefaultValues()
+	verif.Assert(a.B3.Bd != nil && *a.B3.Bd == 5 && a.B3.Bs != nil && len(*a.B3.Bs) == 1, "nested defaults missing in the default instance")
+	switch verif.Choose(3) {
+	case 0:
+		(*a.B3.Bs)[0] = "changed"
+	case 1:
+		*a.B3.Bs = append(*a.B3.Bs, "more")
+	case 2:
+		*a.B3.Bd = 99
+	}
+	c := vt.NewWrap3WithDefaultValues()
+	for _, w := range []*vt.Wrap3{b, c} {
+		verif.Assert(w.B3.Bd != nil && *w.B3.Bd == 5, "a nested int default is shared between default instances")
+		verif.Assert(w.B3.Bs != nil && len(*w.B3.Bs) == 1 && (*w.B3.Bs)[0] == "x", "a nested array default is shared between default instances")
+	}
+	verif.Assert(a.Own != nil && *a.Own == "w", "own default missing")
+	verif.Cover("unshared")
+}
+
 func Harness_C13_Twin(format int) {
 	present := make([]bool, len(c13Fields))
 	present[0] = verif.Bool()
